@@ -1310,6 +1310,26 @@ def _explicit_visit_dispatch(trees: Dict[str, ast.Module]) -> int:
     return n_done
 
 
+class _SplitIfExpReturn(ast.NodeTransformer):
+    """return a if c else b   is   if c: return a / else: return b  - one spelling of a decision for the rules"""
+
+    def __init__(self):
+        self.n = 0
+
+    def visit_Lambda(self, node):
+        return node
+
+    def visit_Return(self, node: ast.Return):
+        v = node.value
+        if isinstance(v, ast.IfExp):
+            self.n += 1
+            a = self.visit_Return(ast.copy_location(ast.Return(value=v.body), node))
+            b = self.visit_Return(ast.copy_location(ast.Return(value=v.orelse), node))
+            new = ast.If(test=v.test, body=[a] if isinstance(a, ast.stmt) else a, orelse=[b] if isinstance(b, ast.stmt) else b)
+            return ast.copy_location(new, node)
+        return node
+
+
 class _StarCopies(ast.NodeTransformer):
     """[*x] is list(x), (*x,) is tuple(x), {**d} is dict(d): the unpacking spellings of a copy (where the names list /
     tuple / dict are not re-bound in the module)"""
@@ -1343,6 +1363,10 @@ class _StarCopies(ast.NodeTransformer):
 
 def canonicalise(trees: Dict[str, ast.Module]) -> Dict[str, str]:
     """rename renamed private anchors back (in the trees); returns {canonical name: name used in this tree}"""
+    for t in trees.values():
+        if any(isinstance(x, ast.Return) and isinstance(x.value, ast.IfExp) for x in ast.walk(t)):
+            _SplitIfExpReturn().visit(t)
+            ast.fix_missing_locations(t)
     for t in trees.values():
         if any((isinstance(x, (ast.List, ast.Tuple)) and len(x.elts) == 1 and isinstance(x.elts[0], ast.Starred)) or (isinstance(x, ast.Dict) and len(x.keys) == 1 and x.keys[0] is None) for x in ast.walk(t)):
             shadowed = {n.id for n in ast.walk(t) if isinstance(n, ast.Name) and isinstance(n.ctx, (ast.Store, ast.Del)) and n.id in ("list", "tuple", "dict")} | {a.arg for a in ast.walk(t) if isinstance(a, ast.arg) and a.arg in ("list", "tuple", "dict")}
